@@ -29,7 +29,7 @@ from netqasm.sdk.transpile import NVSubroutineTranspiler
 
 from sim.core import Choices, Discard, Sched, Trace, Violation
 from sim.props.c05 import _last_sub
-from sim.rigs.controller import ControllerNode
+from sim.rigs.controller import ControllerNode, subroutine_bytes
 from sim.stubs.backend import reset_globals
 from sim.stubs.connection import SimConnection, SimNetworkInfo
 from sim.stubs.qmem_sv import I2, SVQMem, T as TGATE, Universe, X, Y, Z
@@ -54,7 +54,7 @@ ASSUMPTIONS = [
     "other thresholds 1 - 1e-9",
 ]
 PROBES = ["toffoli", "t_inverse", "set_qubit_state", "parity_meas", "parity:ancilla-path", "parity:single-qubit-path",
-          "parity:trivial", "parity:negative", "parity_sequence", "parity:sequence-read-at-the-end", "parity:both-branches-possible", "entangled-input", "flush-inside"]
+          "parity:trivial", "parity:negative", "parity_sequence", "parity:sequence-read-at-the-end", "virtual-ids-differ-from-physical", "parity:both-branches-possible", "entangled-input", "flush-inside"]
 
 PAULI = {"I": I2, "X": X, "Y": Y, "Z": Z}
 TOFFOLI = np.eye(8, dtype=complex)
@@ -107,6 +107,14 @@ def one_pass(ch: Choices, spec: Dict[str, Any], forced: List[int], sample: Dict[
                             {"where": where, "error": str(e)[:300], "subroutine": _last_sub(conn)[:2000], **sample})
 
     try:
+        if spec.get("foreign"):
+            # another application on the same controller already holds some qubits: this application's virtual IDs
+            # then differ from the physical positions
+            node.init_app(77, spec["foreign"])
+            fprog: List[tuple] = []
+            for v in range(spec["foreign"]):
+                fprog += [("set", ("Q", 0), v), ("qalloc", ("Q", 0)), ("init", ("Q", 0))]
+            node.run_raw_now(subroutine_bytes(fprog, 77, node.flavour))
         qs = [Qubit(conn) for _ in range(n)]
         conn.flush()
         drain("allocation")
@@ -152,7 +160,7 @@ def one_pass(ch: Choices, spec: Dict[str, Any], forced: List[int], sample: Dict[
         if q.qubit_id >= len(um) or um[q.qubit_id] is None:
             raise Violation("state", f"data-qubit-not-allocated|{spec['call']}", dict(sample))
         cur.append((0, um[q.qubit_id]))
-    out = {"state": uni.statevector(cur), "prob": uni.branch_prob, "result": result, "live": len(qm.live),
+    out = {"state": uni.statevector(cur), "prob": uni.branch_prob, "result": result, "live": len(qm.live) - spec.get("foreign", 0),
            "value": ([(h.value if hasattr(h, "value") else h) for h in result] if isinstance(result, list)
                      else (result.value if hasattr(result, "value") else result))}
     conn.close()
@@ -214,6 +222,9 @@ def run(ch: Choices, opts: Dict[str, Any]) -> Dict[str, Any]:
         if spec["flush_inside"]:
             bump(probes, "flush-inside")
             bump(faults, "flush-between-preparation-and-circuit")
+    spec["foreign"] = 0 if calm else ch.weighted([2, 1, 1], "foreign")
+    if spec["foreign"]:
+        bump(probes, "virtual-ids-differ-from-physical")
     psi = random_vec(ch, spec["n"], kind)
     if call == "set_qubit_state":
         psi = np.array([1, 0], dtype=complex)
